@@ -478,3 +478,135 @@ Proof.
   - intros a r. destruct (runtime_name "CRC_32_ISO_HDLC" a); discriminate.
   - intros a r. discriminate.
 Qed.
+
+(* ------------------------------------------------------------------------------------------ output sizes *)
+Lemma N_to_le_length n x : List.length (N_to_le n x) = n.
+Proof. revert x; induction n as [|k IH]; intros x; cbn [N_to_le List.length]; [reflexivity | rewrite IH; reflexivity]. Qed.
+
+Lemma md5_length m : List.length (md5 m) = 16%nat.
+Proof.
+  unfold md5. destruct (fold_left md5_block _ md5_init) as [[[a b] c] d].
+  rewrite !app_length, !N_to_le_length. reflexivity.
+Qed.
+
+Lemma iota_length rc a : List.length (iota rc a) = List.length a.
+Proof. destruct a; reflexivity. Qed.
+
+Lemma keccak_round_length a rc : List.length (keccak_round a rc) = 25%nat.
+Proof. unfold keccak_round. rewrite iota_length. unfold chi. rewrite map_length. reflexivity. Qed.
+
+Lemma keccak_rounds_length l : forall a, List.length a = 25%nat ->
+  List.length (fold_left keccak_round l a) = 25%nat.
+Proof.
+  induction l as [|rc l IH]; intros a Ha; cbn [fold_left]; [exact Ha |].
+  apply IH. apply keccak_round_length.
+Qed.
+
+Lemma keccak_f_length a : List.length (keccak_f a) = 25%nat.
+Proof.
+  unfold keccak_f, keccak_RC. cbn [fold_left]. apply keccak_round_length.
+Qed.
+
+Lemma absorb_all_length l : forall st, List.length st = 25%nat ->
+  List.length (fold_left absorb l st) = 25%nat.
+Proof.
+  induction l as [|blk l IH]; intros st Hs; cbn [fold_left]; [exact Hs |].
+  apply IH. unfold absorb. apply keccak_f_length.
+Qed.
+
+Lemma sha3_generic_length out m : (out <= 200)%nat -> List.length (sha3_generic out m) = out.
+Proof.
+  intros Ho. unfold sha3_generic. rewrite firstn_length.
+  rewrite (flat_map_const_length _ 8%nat) by (intros; apply N_to_le_length).
+  rewrite absorb_all_length by (apply repeat_length). lia.
+Qed.
+
+Lemma sha1_length' m : List.length (sha1 m) = 20%nat.
+Proof. pose proof (sha1_length m) as H. unfold blen in H. lia. Qed.
+
+Definition sha2_outlen (v : sha2_variant) : nat :=
+  match v with S224 => 28 | S256 => 32 | S384 => 48 | S512 => 64 | S512_224 => 28 | S512_256 => 32 end.
+Definition sha3_outlen (v : sha3_variant) : nat :=
+  match v with T224 => 28 | T256 => 32 | T384 => 48 | T512 => 64 end.
+Definition hmac_outlen (a : hmac_alg) : nat :=
+  match a with HSha1 => 20 | HSha224 => 28 | HSha256 => 32 | HSha384 => 48 | HSha512 => 64 end.
+
+Lemma sha2_spec_length v m : List.length (sha2_spec v m) = sha2_outlen v.
+Proof. destruct v; cbn [sha2_spec sha2_outlen]; apply sha2_generic_length; cbn; lia. Qed.
+
+Lemma sha3_spec_length v m : List.length (sha3_spec v m) = sha3_outlen v.
+Proof. destruct v; cbn [sha3_spec sha3_outlen]; apply sha3_generic_length; lia. Qed.
+
+Lemma hmac_hash_length a m : List.length (hmac_hash a m) = hmac_outlen a.
+Proof.
+  destruct a; cbn [hmac_hash hmac_outlen]; try (apply sha2_generic_length; cbn; lia). apply sha1_length'.
+Qed.
+
+Lemma hmac_spec_length a k m : List.length (hmac_spec a k m) = hmac_outlen a.
+Proof. unfold hmac_spec, hmac. apply hmac_hash_length. Qed.
+
+(* ------------------------------------------------------------------------------------------ word ranges *)
+Lemma lt_pow2_bits a n : a < 2 ^ n <-> (forall k, n <= k -> N.testbit a k = false).
+Proof.
+  split.
+  - intros Ha k Hk. destruct (N.eq_dec a 0) as [->|Hz]; [apply N.bits_0 |].
+    apply N.bits_above_log2. apply N.log2_lt_pow2 in Ha; lia.
+  - intros Hb. destruct (N.eq_dec a 0) as [->|Hz]; [apply N.neq_0_lt_0, N.pow_nonzero; lia |].
+    apply N.log2_lt_pow2; [lia |].
+    destruct (N.lt_ge_cases (N.log2 a) n) as [Hl|Hl]; [exact Hl |].
+    specialize (Hb (N.log2 a) Hl). rewrite N.bit_log2 in Hb by exact Hz. discriminate.
+Qed.
+
+Lemma lxor_lt a b n : a < 2 ^ n -> b < 2 ^ n -> N.lxor a b < 2 ^ n.
+Proof.
+  rewrite !lt_pow2_bits. intros Ha Hb k Hk. rewrite N.lxor_spec, Ha, Hb by exact Hk. reflexivity.
+Qed.
+
+Lemma shiftr_lt a k n : a < 2 ^ n -> N.shiftr a k < 2 ^ n.
+Proof.
+  rewrite !lt_pow2_bits. intros Ha j Hj. rewrite N.shiftr_spec by lia. apply Ha. lia.
+Qed.
+
+Lemma land_ones_lt a n : N.land a (N.ones n) < 2 ^ n.
+Proof. rewrite N.land_ones. apply N.mod_lt. apply N.pow_nonzero. lia. Qed.
+
+Lemma trunc64_lt a : trunc64 a < 2 ^ 64.
+Proof. unfold trunc64. change mask64 with (N.ones 64). apply land_ones_lt. Qed.
+Lemma trunc32_lt a : trunc32 a < 2 ^ 32.
+Proof. unfold trunc32. change mask32 with (N.ones 32). apply land_ones_lt. Qed.
+
+Lemma xorshift_lt x k n : x < 2 ^ n -> xorshift x k < 2 ^ n.
+Proof. intros Hx. unfold xorshift. apply lxor_lt; [exact Hx | apply shiftr_lt; exact Hx]. Qed.
+
+Lemma xxh64_avalanche_lt h : xxh64_avalanche h < 2 ^ 64.
+Proof. unfold xxh64_avalanche. apply lxor_lt; [| apply shiftr_lt]; apply trunc64_lt. Qed.
+
+Lemma xxh3_avalanche_lt h : xxh3_avalanche h < 2 ^ 64.
+Proof. unfold xxh3_avalanche. apply xorshift_lt. apply trunc64_lt. Qed.
+
+Lemma xxh32_lt m : xxh32 m < 2 ^ 32.
+Proof.
+  unfold xxh32, xxh32_avalanche. apply lxor_lt; [| apply shiftr_lt]; apply trunc32_lt.
+Qed.
+
+Lemma xxh64_lt m : xxh64 m < 2 ^ 64.
+Proof. unfold xxh64. apply xxh64_avalanche_lt. Qed.
+
+Lemma xxh3_64_lt m : xxh3_64 m < 2 ^ 64.
+Proof.
+  unfold xxh3_64.
+  repeat match goal with |- (if ?c then _ else _) < _ => destruct c end.
+  - apply xxh64_avalanche_lt.
+  - apply xxh64_avalanche_lt.
+  - unfold xxh3_64_4to8, xxh3_rrmxmx. apply xorshift_lt, trunc64_lt.
+  - apply xxh3_avalanche_lt.
+  - apply xxh3_avalanche_lt.
+  - apply xxh3_avalanche_lt.
+  - apply xxh3_avalanche_lt.
+Qed.
+
+Lemma seahash_lt m : seahash m < 2 ^ 64.
+Proof.
+  unfold seahash. destruct (fold_left sea_write _ sea_init) as [[[a b] c] d].
+  unfold sea_diffuse. apply trunc64_lt.
+Qed.
